@@ -629,6 +629,10 @@ inductive DtOp where
   /-- the user sets `ri_mercurius.recalculate_r_crit_this_timestep = 1` (after changing a mass or a
       radius); only MERCURIUS has this flag (`mSetRcrit`) -/
   | setRcrit
+  /-- the user changes `safe_mode` / `keep_unsynchronized` of the integrator in use between two calls
+      (e.g. `Simulationarchive.getSimulation` sets keep_unsynchronized on a loaded simulation) -/
+  | setSafe (b : Bool)
+  | setKeep (b : Bool)
   deriving Repr
 
 /-- the synchronize that precedes an assignment to `dt` -/
@@ -661,7 +665,7 @@ def dtOk {F : Type} (stepF syncF forceF : F → F) (isS : F → Bool) : List DtO
   | .api _ :: r, f => dtOk stepF syncF forceF isS r f
   | .forceSync :: r, f => dtOk stepF syncF forceF isS r (forceF f)
   | .begin :: r, f => dtOk stepF syncF forceF isS r f
-  | .setRcrit :: r, f => dtOk stepF syncF forceF isS r f
+  | .setRcrit :: r, f | .setSafe _ :: r, f | .setKeep _ :: r, f => dtOk stepF syncF forceF isS r f
   | .flipDt :: r, f | .setDtLast :: r, f | .restoreDt :: r, f =>
     isS f && dtOk stepF syncF forceF isS r f
 
